@@ -194,7 +194,7 @@ def run(check, ctx):
         raise AnalysisError("P4 retain: only %d attribute stores from parameters found" % nst)
 
 
-def k12_tree_rows(check, repo, rule="SEG"):
+def k12_tree_rows(check, repo, rule="SEG", lifecycle_rule=None):
     """KangarooTwelve's Python tree bookkeeping: for every partition of the input, the byte stream handed to the final
     TurboSHAKE128 and its domain byte are those of the specification (S = M || C || length_encode(|C|) cut into
     8192-byte chunks; FinalNode = S_0 || 03 00^7 || CV_1 .. CV_{n-1} || length_encode(n-1) || FF FF, domain 06; a single
@@ -241,6 +241,8 @@ def k12_tree_rows(check, repo, rule="SEG"):
         (8192 + 8192 - 3, 0, [[16381], [8000, 8381]]),
     ]
     wrong = []
+    life = []
+    nlife = 0
     n = 0
     for (mlen, clen, parts) in cases:
         msg = pattern(mlen, 1)
@@ -308,7 +310,31 @@ def k12_tree_rows(check, repo, rule="SEG"):
                     k = next((j for j in range(min(len(got_stream), len(want_stream))) if got_stream[j] != want_stream[j]), min(len(got_stream), len(want_stream)))
                     why = "final node differs from the specification at byte %d (lengths %d / %d)" % (k, len(got_stream), len(want_stream))
                 wrong.append("%d-byte message, %d-byte customization, pieces %s: %s" % (mlen, clen, part, why))
+            if lifecycle_rule and part == parts[0]:
+                # squeezing is final: a second read() continues the same sponge (nothing more is absorbed), update() is refused
+                nlife += 2
+                s2 = est.clone()
+                s2.frames = [{}]
+                r2 = it.run(mod, repo.func(mod, "K12_XOF.read"), {"length": 32}, self_obj=me, state=s2)
+                if len(r2.returns()) != 1 or r2.raises():
+                    life.append("%d-byte message, %d-byte customization: second read() not decided / raises %s" % (mlen, clen, r2.raise_classes()))
+                else:
+                    h2 = r2.returns()[0].state.heap.get(h1.ident, {})
+                    if h2.get("buf") != got_stream or h2.get("_domain") != got_dom:
+                        life.append("%d-byte message, %d-byte customization: the second read() absorbs %d more bytes into the final node (domain %r)" % (
+                            mlen, clen, len(h2.get("buf") or b"") - len(got_stream or b""), h2.get("_domain")))
+                s3 = est.clone()
+                s3.frames = [{}]
+                r3 = it.run(mod, repo.func(mod, "K12_XOF.update"), {"data": b"more"}, self_obj=me, state=s3)
+                if r3.returns() or set(r3.raise_classes()) != {"TypeError"}:
+                    life.append("%d-byte message, %d-byte customization: update() after read() %s" % (
+                        mlen, clen, "is accepted" if r3.returns() else "raises %s" % r3.raise_classes()))
     fn = repo.func(mod, "K12_XOF.update")
+    if lifecycle_rule:
+        check.ob(lifecycle_rule, lifecycle_rule + "|k12.squeezing", not life, mod.path, repo.func(mod, "K12_XOF.read").lineno,
+                 extracted="; ".join(life[:3]) if life else "%d rows (single chunk, tree, long customization): after the first read() a further read() absorbs nothing and update() raises TypeError" % nlife,
+                 expected="an XOF that started squeezing stays squeezing: read() continues one output stream, update() is refused (documented on read())")
+        return
     check.ob(rule, rule + "|k12.tree", not wrong, mod.path, fn.lineno,
              extracted="; ".join(wrong[:3]) if wrong else "%d (length, customization, partition) rows: chunks are closed at exactly 8192 bytes whatever the partition; final node and domain byte as specified" % n,
              expected="KangarooTwelve (RFC 9861 3): the result depends on M and C only, not on how M is cut into update() calls; S longer than one chunk is tree-hashed")
